@@ -43,6 +43,12 @@ def model(decls, stmt, where):
         return xmlgen.simple_model(decl=decl + "\nvoid t() { %s; }" % stmt)
     if where == "update":
         return xmlgen.simple_model(decl=decl, edges=[("id0", "id0", [("assignment", stmt)])])
+    if where == "after-return":
+        return xmlgen.simple_model(decl=decl + "\nvoid t() { h = 1; return; %s; }" % stmt)
+    if where == "after-if-else-return":
+        return xmlgen.simple_model(decl=decl + "\nint t() { if (b) { return 1; } else { return 2; } %s; return 3; }" % stmt)
+    if where == "nested-after-return":
+        return xmlgen.simple_model(decl=decl + "\nvoid t() { { return; } %s; }" % stmt)
     if where == "for-clause":
         return xmlgen.simple_model(decl=decl + "\nvoid t() { int i; for (i = 0; i < 1; %s) { i++; } }" % stmt)
     raise ValueError(where)
@@ -61,6 +67,18 @@ def run(rep, tier, seed):
                 w = w.replace("setref(", "setrefb(").replace("fwd(", "fwdb(")
             for where in ("function", "update", "for-clause"):
                 pairs.append((name, w + "@" + where, model(decls, w % cl, where), model(decls, w % ml, where)))
+            if w in ("%s = 1", "%s++", "setref(%s)", "%s += 1"):
+                # statements the control flow cannot reach are still part of the model
+                for where in ("after-return", "after-if-else-return", "nested-after-return"):
+                    pairs.append((name, w + "@" + where, model(decls, w % cl, where), model(decls, w % ml, where)))
+        # the write next to an operand that is itself questionable (rejected or warned about for another reason): the
+        # write to the constant must not become acceptable through it; the twin need not be accepted
+        for w in ("%s = abs(dd)", "%s += 1 + abs(dd)", "%s = fpclassify(dd)", "%s = 1 / 0", "%s = h, h", "setref2(%s, abs(dd))"):
+            decls2 = decls + " double dd; void setref2(int &r, int v) { r = v; }"
+            if bounded:
+                decls2 = decls2.replace("void setref2(int &r", "void setref2(int[0,5] &r")
+            pairs.append((name, w + "@function", model(decls2, w % cl, "function"), model(decls2, w % ml, "function"), False))
+            pairs.append((name, w + "@update", model(decls2, w % cl, "update"), model(decls2, w % ml, "update"), False))
         # through an inline-if on the left-hand side, either branch
         sr = "setrefb" if bounded else "setref"
         for pat in ("(b ? %s : OTHER) = 1", "(b ? OTHER : %s) = 1", "(b ? %s : OTHER) += 1", "(b ? OTHER : %s)++",
